@@ -46,7 +46,7 @@ def preload():
 def configs(tier, seed):
     big = tier == "thorough"
     out = []
-    for nc, nw, scales, norm in [(1, 1, False, True), (1, 2, True, True), (2, 2, True, False), (2, 1, False, True)] + \
+    for nc, nw, scales, norm in [(1, 1, False, True), (1, 2, True, True), (2, 2, True, False), (2, 1, False, True), (1, 2, False, True)] + \
             ([(3, 3, True, True), (1, 3, True, False)] if big else []):
         out.append({"name": f"closed-c{nc}-w{nw}-{'s' if scales else 'nos'}-{'norm' if norm else 'raw'}", "kind": "closed",
                     "nc": nc, "nw": nw, "scales": scales, "normalize": norm, "nr": 2 if big else 1,
